@@ -3,7 +3,7 @@
 The encoder serves as input generator (foreign layouts, corruptions) and as a second reference for
 the writer's bytes; the Coq-side reference is the pure encoder enc_* of the *Facts.v files."""
 import struct
-from vlib import FIXED, ALLTYPES, STRING, BINARY, BOOL, INT, rand_elem, rand_array, obj_line, obj_dump, hx, name_hex
+from vlib import ALLTYPES, STRING, BINARY, BOOL, INT, FIXED, rand_elem, rand_array, obj_line, obj_dump, hx, name_hex
 
 PLAIN, RLE, BIT, DFLT = -2, -3, -4, -1
 ENCNAME = {PLAIN: "plain", RLE: "rle", BIT: "bit", DFLT: "dflt"}
@@ -86,6 +86,21 @@ def rand_table(rng, ncols=None, nslices=None, maxrows=40, conflict=False, types=
                 col["props"].append((pn, pty, rand_array(rng, pty, rows), pk))
             sl.append(col)
         t["slices"].append(sl)
+    return t
+
+
+def big_table(rng, tys, rows):
+    """one slice of plain fixed-size columns whose payloads exceed 64 KiB / 65536 values (distinct values: a piece
+    that lands at the wrong offset or is converted twice cannot go unnoticed)"""
+    t = {"tmeta": [], "cols": [], "slices": []}
+    sl = []
+    for c, ty in enumerate(tys):
+        t["cols"].append({"name": b"big%d" % c, "ty": ty, "extra": []})
+        w = FIXED[ty]
+        vals = [((i * 2654435761 + c * 97 + 12345) % (1 << (8 * w))).to_bytes(w, "little") for i in range(rows)]
+        if ty == BOOL: vals = [bytes([v[0] & 1]) for v in vals]
+        sl.append({"vals": vals, "enc": PLAIN, "props": []})
+    t["slices"].append(sl)
     return t
 
 
